@@ -1,6 +1,6 @@
 (* Correspondence for C04: facts of one imported path before the daemon's pass, and what was observed after *)
 From Coq Require Import List NArith Bool Arith.
-From Alp Require Import Base.Str Base.Types Model.Path Model.Import.
+From Alp Require Import Base.Str Base.Types Model.Path Model.Import Model.Watch.
 Import ListNotations.
 Definition hw_eqb (a b : option (has * wants)) : bool :=
   match a, b with None, None => true | Some (h1, w1), Some (h2, w2) => has_eqb h1 h2 && wants_eqb w1 w2 | _, _ => false end.
@@ -28,3 +28,10 @@ Definition ccheck (c : ccase) : bool :=
   | None => hw_eqb a (Some (HY, WY)) || hw_eqb a (Some (HM, WY))
   | Some r => if tracked (Some r) then hw_eqb a (Some r) else hw_eqb a (Some (revive r)) || hw_eqb a (Some (revive (revive r)))
   end.
+
+(* watchdog events: the path the real handler handed to import_file (None: nothing), and what locked() looked for beside a path *)
+Definition ostr_eqb (a b : option str) : bool := match a, b with Some x, Some y => str_eqb x y | None, None => true | _, _ => false end.
+Definition ecase := (event * option str)%type.
+Definition echeck (c : ecase) : bool := ostr_eqb (handle (fst c)) (snd c).
+Definition lcase := (str * str)%type.          (* (path, the lock path DefaultNodeIO.locked tested) *)
+Definition lcheck (c : lcase) : bool := str_eqb (lock_of (fst c)) (snd c).
